@@ -13,9 +13,8 @@
 (*   - Mkdir / OpenFile(O_CREATE): lookup of the parent, THEN parent.Lock()*)
 (*     - the parent found by the lookup may have been removed or moved     *)
 (*     meanwhile;                                                          *)
-(*   - remove: dir.Lock(), then node.Size() (takes and RELEASES the        *)
-(*     child's lock), then the entry is deleted: the child may gain an     *)
-(*     entry between the emptiness test and the deletion;                  *)
+(*   - remove: dir.Lock(), then detach() of the child directory (child's   *)
+(*     lock: emptiness test + removed flag), then the entry is deleted;    *)
 (*   - Rename: both directories are looked up first (openFile(dir+".")),   *)
 (*     then the filesystem-wide mutex, then every ancestor of both         *)
 (*     directories root-first (computed through the parent POINTERS, which *)
@@ -34,18 +33,19 @@
 (*                 a successor): lock order is filesystem mutex, then      *)
 (*                 top-down by the tree.                                   *)
 (*                                                                         *)
-(* KF_detached: the faithful model contains a lookup-then-lock race:       *)
-(* Mkdir / O_CREATE / Rename resolve a directory, another goroutine        *)
-(* removes that (empty) directory, and the first one then creates or moves *)
-(* an entry INTO THE DETACHED directory and reports success - the entry is *)
-(* in no tree any more, and no order of the two successful operations is   *)
-(* allowed by the contract.  Likewise Remove tests emptiness under the     *)
-(* child's lock but deletes the entry after releasing it, so an entry      *)
-(* created in between goes down with the directory.  The variable `lost`   *)
-(* tracks exactly these two cases;                                         *)
-(* NoLost is NOT among the invariants of the MC configurations (it fails); *)
-(* Gen_CollFSDir_C13.cfg emits the schedules that reach it, so that RUN +  *)
-(* JUDGE decide on the real code whether it reproduces.                    *)
+(* History (KF-C13-1, fixed by 9333098).  Before the fix remove() tested    *)
+(* emptiness with node.Size() (child's lock taken and released) and then   *)
+(* deleted the entry, and nothing stopped Mkdir / O_CREATE / Rename from   *)
+(* adding an entry to a directory they had looked up before it was         *)
+(* unlinked: both calls returned nil and the entry was in no tree (no      *)
+(* order of the two successes is allowed by the contract).  This model     *)
+(* found it (NoLost / Linearizable failed), the driver reproduced it.      *)
+(* The fixed protocol modelled here: detach() tests emptiness and sets     *)
+(* treenode.removed in ONE critical section under the node's own lock;     *)
+(* treenode.Child() refuses to add to / replace in a removed node          *)
+(* (os.ErrNotExist).  `lost` must now stay FALSE (NoLost); `hit` marks the *)
+(* behaviours in which the flag decided, which Gen_CollFSDir_C13.cfg emits *)
+(* as regression schedules for RUN + JUDGE.                                *)
 (***************************************************************************)
 EXTENDS Integers, Sequences, FiniteSets, TLC, Json, IOUtils
 
@@ -244,7 +244,7 @@ RmDetach(w) ==
             /\ UNCHANGED rem
        ELSE LET c == tree[dir].e[name]
                 ok == ~IsD(c) \/ Kids(c) = {} IN
-            /\ lk[c] = 0                                     \* blocks while somebody holds the child
+            /\ IsD(c) => lk[c] = 0                            \* detach() blocks while somebody holds the directory
             /\ rem' = IF ok /\ IsD(c) THEN [rem EXCEPT ![c] = TRUE] ELSE rem
             /\ SetW(w, [r EXCEPT !.pc = "rm_fin", !.tgt = c, !.empty = ok])
     /\ UNCHANGED <<cvars, tree, par, lk, mtx, cnt, linbad, taint, lost, hit, hist>>
